@@ -309,30 +309,33 @@ def _reference(case, ctx):
     return _REF_CACHE[key]
 
 
-def fault_record_index(case, files_orig):
-    """Index of the first input record (pair) that a fault can have touched; None = no bound
-    (gz_flip: anything after the flip may be garbage)."""
-    idx = None
+def fault_record_index(case, files_orig, files_faulted):
+    """
+    Index of the first input record (pair) the faults can have touched, found by comparing
+    the plain streams before and after the faults: records that end inside the common prefix
+    are untouched. None = no bound needed (nothing changed, or a truncated compressed stream,
+    whose decodable part is a prefix of the original); -1 = no record can be trusted (gz_flip:
+    anything after the flip may decode to garbage).
+    """
     il = case["input"]["layout"] == "interleaved"
     paths = gen.input_paths(case)
-    for f in case["faults"]:
-        k = f["kind"]
-        fi = min(f.get("file", 0), len(paths) - 1)
-        if k == "truncate":
-            if case["input"]["containers"][fi]:
-                continue  # what decodes from a truncated stream is a prefix of the original: no bound needed
-            offs = record_offsets(case, fi)
-            n_complete = sum(1 for o in offs[1:] if o <= f["offset"] + 1)  # final newline optional
-            i = n_complete // 2 if il else n_complete
-        elif k == "gz_flip":
-            return -1
-        elif k == "mate_missing":
-            n = len(case["records"])
-            i = n - 1 if il else max(0, n - f.get("k", 1))
-        else:
-            nrec = len(case["records"]) * (2 if il else 1)
-            rec = min(max(f.get("rec", 0), 0), max(0, nrec - 1))
-            i = rec // 2 if il else rec
+    if any(f["kind"] == "gz_flip" for f in case["faults"]):
+        return -1
+    idx = None
+    for fi, p in enumerate(paths):
+        if files_orig[p] == files_faulted[p]:
+            continue
+        po = _plain_of(p, files_orig[p])
+        try:
+            pf = _plain_of(p, files_faulted[p])
+        except fmt.FormatError:
+            continue  # truncated container
+        if po == pf:
+            continue
+        L = C.first_diff(po, pf)
+        offs = record_offsets(case, fi)
+        n_complete = sum(1 for o in offs[1:] if o <= L)
+        i = n_complete // 2 if il else n_complete
         idx = i if idx is None else min(idx, i)
     return idx
 
@@ -424,7 +427,7 @@ def evaluate(case, ctx):
         raise engine.Discard("cli-rejected")
     if ref.exit != 0:
         raise engine.Discard("reference-run-failed")
-    bound = fault_record_index(case, files0)
+    bound = fault_record_index(case, files0, files)
     viols = []
     ser = C.run_serial(case, ctx, files, name="serial")
     viols += judge_run(case, ser, "serial", cls, n_in, ref, bound)
